@@ -6,6 +6,8 @@ import (
 	"fmt"
 	"sort"
 	"strings"
+
+	"github.com/mlange-42/arche/ecs/event"
 )
 
 // This file exists only with build tag "verif". It is used by the external
@@ -454,3 +456,22 @@ func VerifIDValue(id ID) uint8 { return id.id }
 
 // VerifResIDValue returns the numeric value of a resource ID.
 func VerifResIDValue(id ResID) uint8 { return id.id }
+
+// VerifSubscribes exposes the unexported subscribes function.
+func VerifSubscribes(trigger event.Subscription, added *Mask, removed *Mask, subs *Mask, oldRel *ID, newRel *ID) bool {
+	return subscribes(trigger, added, removed, subs, oldRel, newRel)
+}
+
+// VerifSubscription exposes the unexported subscription function.
+func VerifSubscription(entityCreated, entityRemoved, componentAdded, componentRemoved, relationChanged, targetChanged bool) event.Subscription {
+	return subscription(entityCreated, entityRemoved, componentAdded, componentRemoved, relationChanged, targetChanged)
+}
+
+// VerifCapacity exposes the unexported capacity functions.
+func VerifCapacity(size, increment int) int { return capacity(size, increment) }
+
+// VerifCapacityNonZero exposes capacityNonZero.
+func VerifCapacityNonZero(size, increment int) int { return capacityNonZero(size, increment) }
+
+// VerifCapacityU32 exposes capacityU32.
+func VerifCapacityU32(size, increment uint32) uint32 { return capacityU32(size, increment) }
